@@ -14,6 +14,7 @@ import (
 
 	"github.com/go-git/go-git/v5"
 	"github.com/go-git/go-git/v5/plumbing"
+	"github.com/go-git/go-git/v5/plumbing/filemode"
 	"github.com/go-git/go-git/v5/plumbing/object"
 
 	"go.uber.org/thriftrw/internal/zzsim/progen"
@@ -411,6 +412,63 @@ func RunC20(cfg simrt.Config, o world.Opts) *world.Result {
 		head, err := commitWith(wt, "after", 9, parents)
 		if err != nil {
 			panic(err)
+		}
+		if simrt.Flip("c20.submodule", 0.1) {
+			// the repository vendors something as a submodule: its trees carry a gitlink entry
+			// (mode 160000), which is not a file; HEAD may move the pointer, drop it or keep it
+			link := func(c plumbing.Hash, target string, parents []plumbing.Hash) plumbing.Hash {
+				commit, err := r.CommitObject(c)
+				if err != nil {
+					panic(err)
+				}
+				tree, err := commit.Tree()
+				if err != nil {
+					panic(err)
+				}
+				entries := append([]object.TreeEntry{}, tree.Entries...)
+				if target != "" {
+					// the name sorts behind every other entry of the root tree
+					entries = append(entries, object.TreeEntry{Name: "zz-vendored", Mode: filemode.Submodule, Hash: plumbing.NewHash(target)})
+				}
+				to := r.Storer.NewEncodedObject()
+				if err := (&object.Tree{Entries: entries}).Encode(to); err != nil {
+					panic(err)
+				}
+				th, err := r.Storer.SetEncodedObject(to)
+				if err != nil {
+					panic(err)
+				}
+				if parents == nil {
+					parents = commit.ParentHashes
+				}
+				co := r.Storer.NewEncodedObject()
+				nc := &object.Commit{Author: commit.Author, Committer: commit.Committer, Message: commit.Message, TreeHash: th, ParentHashes: parents}
+				if err := nc.Encode(co); err != nil {
+					panic(err)
+				}
+				h, err := r.Storer.SetEncodedObject(co)
+				if err != nil {
+					panic(err)
+				}
+				return h
+			}
+			const at1, at2 = "1111111111111111111111111111111111111111", "2222222222222222222222222222222222222222"
+			now := []string{at2, "", at1}[ch("c20.submodule-in-head", 3)]
+			first2 := link(first, at1, []plumbing.Hash{})
+			ps := []plumbing.Hash{first2}
+			if len(parents) == 2 {
+				ps = append(ps, link(parents[1], at1, []plumbing.Hash{first2}))
+			}
+			head = link(head, now, ps)
+			ref, err := r.Head()
+			if err != nil {
+				panic(err)
+			}
+			if err := r.Storer.SetReference(plumbing.NewHashReference(ref.Name(), head)); err != nil {
+				panic(err)
+			}
+			logf("the trees carry a submodule entry; in HEAD it is %q (before: %q)", now, at1)
+			res.Count("c20.repositories-with-a-submodule", 1)
 		}
 		// the directory the tool is pointed at: the repository's own work tree, or a linked one
 		// (`git worktree add`: a `.git` FILE naming an administrative directory below the main
